@@ -21,4 +21,9 @@ MUTANTS = [
  {"id": "benign-lowercase-then-starts-with", "kind": "benign", "edits": [(D, 'starts_with_ignore_ascii_case(slice, "beta")', 'slice.to_ascii_lowercase().starts_with("beta")')]},
  {"id": "benign-rename-state-variables", "kind": "benign",
   "edits": [(D, "re:\\bidx\\b", "pos", 16), (D, "re:\\bpkgrevision = ", "rev = ", 2), (D, "let mut rev = 0;", "let mut rev: i64 = 0;"), (D, "            version,\n            pkgrevision,\n        }", "            version,\n            pkgrevision: rev,\n        }")]},
+
+ # helper extraction (behaviour-preserving): a function that did not exist when the rules were written is inlined by the evaluator
+ {"id": "benign-digit-run-extracted-into-helper", "kind": "benign",
+  "edits": [(D, "re:slice\\.chars\\(\\)\\.take_while\\(char::is_ascii_digit\\)\\.collect\\(\\);", "digit_run(slice);", 2),
+            (D, "impl DeweyVersion {\n", "fn digit_run(s: &str) -> String {\n    s.chars().take_while(char::is_ascii_digit).collect()\n}\n\nimpl DeweyVersion {\n")]},
 ]
